@@ -131,6 +131,20 @@ pub open spec fn has_any(m: Map<Seq<char>, Seq<char>>, ks: Seq<&str>, n: int) ->
 /// R-any: `names.iter().any(|a| self.has_attr(a))`
 #[verifier::external_body]
 pub fn any_attr(e: &SvgElement, names: &[&str]) -> (r: bool) ensures r == has_any(e.attrs@, names@, names@.len() as int) { unimplemented!() }
+/// the element's `transform` attribute as a function on boxes (TransformAttr::from_str + apply: U-bbox, C08.transform.*)
+#[verifier::external_body] pub struct TransformAttr { _p: u8 }
+pub uninterp spec fn xf_parse(s: Seq<char>) -> Option<TransformAttr>;
+pub uninterp spec fn xf_apply(t: TransformAttr, b: (real, real, real, real)) -> (real, real, real, real);
+/// a box given in the element's own coordinates, in the coordinates the element is drawn in (as bbox() reports it)
+pub open spec fn drawn(m: M, b: (real, real, real, real)) -> (real, real, real, real) {
+    if m.dom().contains("transform"@) { xf_apply(xf_parse(m["transform"@])->Some_0, b) } else { b }
+}
+#[verifier::external_body]
+pub fn parse_transform(s: &String) -> (r: Result<TransformAttr>) ensures (match xf_parse(s@) { Some(t) => r == Ok::<TransformAttr, SvgdxError>(t), None => r is Err }) { unimplemented!() }
+impl TransformAttr {
+    #[verifier::external_body]
+    pub fn apply(&self, b: &BoundingBox) -> (r: BoundingBox) ensures bx(r) == xf_apply(*self, bx(*b)) { unimplemented!() }
+}
 impl SvgElement {
     #[verifier::external_body]
     pub fn bbox(&self) -> (r: Result<Option<BoundingBox>>) ensures r is Ok ==> r->Ok_0 == elem_bbox(*self) { unimplemented!() }
@@ -181,22 +195,21 @@ impl SvgElement {
 //@end
 //@item src/element.rs :: impl SvgElement :: fn inscribed_bbox
 //@ replace-all[R-const] <<<FRAC_1_SQRT_2>>> => <<<frac_1_sqrt_2()>>>
-//@ replace[R-strmatch-tuple] <<<match (target_shape, self.name.as_str()) {>>> => <<<{ let m_ = (target_shape, self.name.as_str());>>>
+//@ replace[R-strmatch-tuple] <<<let inscribed = match (target_shape, self.name.as_str()) {>>> => <<<let m_ = (target_shape, self.name.as_str());\n        let inscribed =>>>
 //@ replace[R-strmatch-tuple] <<<            // rect inside circle\n            ("rect", "circle") => {>>> => <<<            if m_.0 == "rect" && m_.1 == "circle" {>>>
 //@ replace[R-strmatch-tuple] <<<            }\n            // rect inside ellipse\n            ("rect", "ellipse") => {>>> => <<<            } else if m_.0 == "rect" && m_.1 == "ellipse" {>>>
-//@ replace[R-strmatch-tuple] <<<            }\n            // Trivial cases: same shape\n            _ => self.bbox(),>>> => <<<            } else { self.bbox() }>>>
+//@ replace[R-strmatch-tuple] <<<            }\n            // Trivial cases: same shape\n            _ => return self.bbox(),\n        };>>> => <<<            } else { return self.bbox(); };>>>
+//@ replace[R-parse] <<<let transform: TransformAttr = transform.parse()?;>>> => <<<let transform: TransformAttr = parse_transform(&transform)?;>>>
 //@ body-start
 //@ | proof { ax_sqrt2(); }
 //@ ensures
 //@ - target_shape@ == "rect"@ && self.name@ == "circle"@ && r is Ok && r->Ok_0 is Some ==> ({
 //@       let cx = num0(self.attrs@, "cx"@)->Some_0; let cy = num0(self.attrs@, "cy"@)->Some_0; let rr = strp_spec(self.attrs@["r"@])->Some_0;
-//@       let (x1, y1, x2, y2) = bx(r->Ok_0->Some_0);
-//@       x1 == cx - rr * isqrt2v() && y1 == cy - rr * isqrt2v() && x2 == cx + rr * isqrt2v() && y2 == cy + rr * isqrt2v() })     @@C12.inside.rect_in_circle
+//@       bx(r->Ok_0->Some_0) == drawn(self.attrs@, (cx - rr * isqrt2v(), cy - rr * isqrt2v(), cx + rr * isqrt2v(), cy + rr * isqrt2v())) })     @@C12.inside.rect_in_circle
 //@ - target_shape@ == "rect"@ && self.name@ == "ellipse"@ && r is Ok && r->Ok_0 is Some ==> ({
 //@       let cx = num0(self.attrs@, "cx"@)->Some_0; let cy = num0(self.attrs@, "cy"@)->Some_0;
 //@       let rx = strp_spec(self.attrs@["rx"@])->Some_0; let ry = strp_spec(self.attrs@["ry"@])->Some_0;
-//@       let (x1, y1, x2, y2) = bx(r->Ok_0->Some_0);
-//@       x1 == cx - rx * isqrt2v() && y1 == cy - ry * isqrt2v() && x2 == cx + rx * isqrt2v() && y2 == cy + ry * isqrt2v() })     @@C12.inside.rect_in_ellipse
+//@       bx(r->Ok_0->Some_0) == drawn(self.attrs@, (cx - rx * isqrt2v(), cy - ry * isqrt2v(), cx + rx * isqrt2v(), cy + ry * isqrt2v())) })     @@C12.inside.rect_in_ellipse
 //@ - unresolved(self.name@, self.attrs@) && r is Ok ==> r->Ok_0 is None     @@C10.pending.inscribed
 //@ - !unresolved(self.name@, self.attrs@) && !(target_shape@ == "rect"@ && (self.name@ == "circle"@ || self.name@ == "ellipse"@)) && r is Ok ==> r->Ok_0 == elem_bbox(*self)     @@C12.inside.same_shape
 //@end
